@@ -73,7 +73,34 @@ def special_models():
         out.append((f'shadowed-namespace-{tag}', shadow,
                     {'enc': ['A', 'B', 'Comp'], 'prov': {'sts': sem, 'mts': other}, 'req': {'sts': sem, 'mts': other},
                      'mc': nomc, 'origin': 'create', 'prefix': ['A'], 'suffix': 'Shell', 'base': 'Mod'}))
+    # identifier shapes: a formal of the claim event named like something the generated claim lambda declares itself
+    for nme in ('identifier', 'r'):
+        evs = [{'name': 'Claim', 'dir': 'in', 'reply': ['Res'], 'formals': [F(nme, 'T')]},
+               {'name': 'Release', 'dir': 'in', 'reply': ['void'], 'formals': []},
+               {'name': 'Done', 'dir': 'out', 'reply': ['void'], 'formals': [F(nme, 'T')]}]
+        decls = [model.new_decl('extern', ['T'], cpp=T1), model.new_decl('enum', ['A', 'Res'], fields=['Ok', 'No']),
+                 model.new_decl('interface', ['A', 'I0'], events=evs),
+                 model.new_decl('component', ['A', 'Comp'], ports=[{'name': 'api', 'type': ['I0'], 'dir': 'provides', 'inj': False}])]
+        out.append((f'claim-formal-{nme}', decls,
+                    {'enc': ['A', 'Comp'], 'prov': {'sts': shell.NONE, 'mts': shell.ALL}, 'req': {'sts': shell.ALL, 'mts': shell.NONE},
+                     'mc': {'on': True, 'port': 'api', 'claim': 'Claim', 'grant': ['Ok'], 'release': 'Release'},
+                     'origin': 'create', 'prefix': [], 'suffix': 'Shell', 'base': 'Mod'}))
     return out
+
+
+COLLISION_MARK = {'identifier': 'previously declared as a capture', 'r': 'shadows a parameter'}
+
+
+def collision_signature(name, err, shell_cc):
+    """Known-finding signature for the claim-formal-* models (they exist only to exhibit that finding): the compiler's
+    characteristic complaint about the colliding name must be present, located in the shell source."""
+    if not name.startswith('claim-formal-'):
+        return None
+    nme = name.split('-')[-1]
+    for line in err.splitlines():
+        if ' error: ' in line and os.path.basename(line.split(':')[0]) == shell_cc and COLLISION_MARK[nme] in line:
+            return [{'kind': 'formal-collides-with-generated-name', 'name': nme}]
+    return None
 
 
 def tu_text(seq):
@@ -160,7 +187,8 @@ def check_model(chk, name, decls, cfg, tier, rng, compilers):
                 rejecting = [c for c, v in verdicts.items() if not v[0]]
                 err = verdicts[rejecting[0]][1]
                 first = next((ln for ln in err.splitlines() if ' error: ' in ln), err[:200])
-                for sig in classify_error(err, scn['predict'], facts['headers']):
+                for sig in collision_signature(name, err, prog.info.shell_name + '.cc') or \
+                        classify_error(err, scn['predict'], facts['headers']):
                     chk.violation(f'{name}: translation unit including {scn["seq"]} is rejected by {rejecting}: {first[:240]}',
                                   {'cfg': cfg, 'decls': decls, 'scenario': scn, 'compiler_output': err[:2500]}, sig)
     # the shell used from a translation unit other than its own source: guarded copies isolate the linkage clause from F
@@ -183,6 +211,7 @@ def check_model(chk, name, decls, cfg, tier, rng, compilers):
         undefined = 'undefined reference' in proc.stderr
         anon = not info.scope
         sig = {'kind': 'internal-linkage-global-namespace'} if undefined and anon else {'kind': 'separate-tu-failure'}
+        sig = (collision_signature(name, proc.stderr, shell_cc) or [sig])[0]
         first = next((ln for ln in proc.stderr.splitlines() if 'undefined reference' in ln or ' error: ' in ln), proc.stderr[:200])
         chk.violation(f'{name}: shell cannot be used from a translation unit other than its own source: {first[:240]}',
                       {'cfg': cfg, 'decls': decls, 'compiler_output': proc.stderr[:2500]}, sig)
